@@ -198,7 +198,11 @@ static JanetTimestamp ts_delta(JanetTimestamp ts, double delta) {
     if (isinf(delta)) {
         return delta < 0 ? ts : INT64_MAX;
     }
-    ts += (int64_t)round(delta * 1000);
+    /* (a delay of 1e16 seconds and more does not fit the millisecond clock: treat it as "never") */
+    double ms = round(delta * 1000);
+    if (ms >= (double)(INT64_MAX - ts)) return INT64_MAX;
+    if (ms <= -(double) ts) return 0;
+    ts += (int64_t) ms;
     return ts;
 }
 
@@ -303,7 +307,21 @@ void janet_async_start_fiber(JanetFiber *fiber, JanetStream *stream, JanetAsyncM
     janet_ev_inc_refcount();
     janet_gcroot(janet_wrap_abstract(stream));
     fiber->ev_state = state;
-    callback(fiber, JANET_ASYNC_EVENT_INIT);
+    /* The first step can raise (a read size that overflows the buffer, say). The operation then never
+     * started: drop the registration and whatever was armed for it (a timeout), or they would hit the
+     * fiber's next, unrelated wait. */
+    JanetTryState tstate;
+    JanetSignal signal = janet_try(&tstate);
+    if (signal == JANET_SIGNAL_OK) {
+        callback(fiber, JANET_ASYNC_EVENT_INIT);
+        janet_restore(&tstate);
+    } else {
+        Janet payload = tstate.payload;
+        janet_restore(&tstate);
+        if (fiber->ev_callback) janet_async_end(fiber);
+        fiber->sched_id++;
+        janet_signalv(signal, payload);
+    }
 }
 
 /* Is another fiber (that has not been cancelled in the meantime) still waiting in this slot? */
